@@ -477,10 +477,12 @@ fn main() {
     let configs: Vec<(usize, usize, Vec<usize>, usize)> = if thorough {
         // last configuration: 4 client writes over {HSET one field, HINCRBY another, DEL}: a delta can meet a register of
         // the other type whose stamp lies between two hash writes of one node
-        vec![(2, 3, all_ops.clone(), 9), (3, 2, all_ops.clone(), 8), (3, 3, core_ops.clone(), 9), (2, 4, vec![11, 14, 6], 8)]
+        vec![(2, 3, all_ops.clone(), 9), (3, 2, all_ops.clone(), 8), (3, 3, core_ops.clone(), 9), (2, 4, vec![11, 13, 14], 9), (2, 4, vec![11, 14, 6], 8)]
     } else {
         // the third configuration (8 core operations) is the one that carries the restart-and-resync event in the quick tier
-        vec![(2, 2, all_ops.clone(), 7), (2, 3, core_ops.clone(), 6), (2, 2, core_ops.clone(), 7)]
+        // the second-to-last configuration: 4 client writes over {HSET a field, HDEL it, HINCRBY another field}: a hash that
+        // is emptied and written again while the other node still ships the field alive
+        vec![(2, 2, all_ops.clone(), 7), (2, 3, core_ops.clone(), 6), (2, 4, vec![11, 13, 14], 8), (2, 2, core_ops.clone(), 7)]
     };
     // the last configuration of each tier is run a second time on nodes with ConsistencyLevel::Causal (vector clocks)
     let causal_from = configs.len();
@@ -557,7 +559,10 @@ fn main() {
         let nodes = r["nodes"].as_u64().unwrap() as usize;
         let ops: Vec<usize> = r["ops"].as_array().unwrap().iter().map(|x| x.as_u64().unwrap() as usize).collect();
         CAUSAL_CONFIG.store(r["causal"].as_bool().unwrap_or(false), std::sync::atomic::Ordering::Relaxed);
-        let alpha = alphabet(nodes, &ops, r["with_restart"].as_bool().unwrap_or(false));
+        let mut alpha = alphabet(nodes, &ops, r["with_restart"].as_bool().unwrap_or(false));
+        if ops.as_slice() == [11, 13, 14] {
+            alpha.retain(|e| !matches!(e, Ev::Client(1, 11) | Ev::Client(1, 13)));
+        }
         let hist: Vec<u16> = r["history"].as_array().unwrap().iter().map(|x| x.as_u64().unwrap() as u16).collect();
         let ev = r["event"].as_u64().unwrap() as u16;
         match run(nodes, r["max_ops"].as_u64().unwrap() as usize, &alpha, &hist, ev) {
@@ -580,7 +585,11 @@ fn main() {
         let causal = ci >= causal_from;
         CAUSAL_CONFIG.store(causal, std::sync::atomic::Ordering::Relaxed);
         let with_restart = thorough || (ops.len() == core_ops.len() && *max_ops == 2);
-        let alpha = alphabet(*nodes, ops, with_restart);
+        let mut alpha = alphabet(*nodes, ops, with_restart);
+        if ops.as_slice() == [11, 13, 14] {
+            // node 0 owns the field's life cycle (HSET, HDEL, write again), node 1 only writes the other field
+            alpha.retain(|e| !matches!(e, Ev::Client(1, 11) | Ev::Client(1, 13)));
+        }
         let mut bfs = Bfs::new(alpha.len(), *depth);
         bfs.deadline = Some(Instant::now() + Duration::from_secs(if thorough { 420 } else { 120 }));
         let disabled = std::sync::atomic::AtomicU64::new(0);
